@@ -26,6 +26,8 @@ MCReject ==
   /\ last' = [a |-> "PublishRejected", v |-> 100 + nRej]
   /\ nRej' = nRej + 1 /\ UNCHANGED <<nMsgs, nElect, nCrash, nIsr, nPause>>
 MCFetch(f, late) == DoFetch(f, late) /\ last' = [a |-> "Fetch", f |-> f, late |-> late] /\ UNCHANGED budget
+MCFetchLost(f) == nCrash < MaxCrash /\ DoFetchLost(f) /\ last' = [a |-> "FetchLost", f |-> f]
+                  /\ nCrash' = nCrash + 1 /\ UNCHANGED <<nMsgs, nElect, nIsr, nRej, nPause>>
 MCLagExpire(f) == DoLagExpire(f) /\ last' = [a |-> "LagExpire", f |-> f] /\ UNCHANGED budget
 MCShrink(f) == nIsr < MaxIsrOps /\ DoShrink(f) /\ last' = [a |-> "Shrink", f |-> f]
                /\ nIsr' = nIsr + 1 /\ UNCHANGED <<nMsgs, nElect, nCrash, nRej, nPause>>
@@ -50,7 +52,7 @@ MCNext ==
   \/ \E n \in 1..Batch : \E pols \in [1..n -> Policies], bigs \in [1..n -> BOOLEAN] : MCPublish(pols, bigs)
   \/ MCReject
   \/ \E f \in R, late \in BOOLEAN : MCFetch(f, late)
-  \/ \E f \in R : MCLagExpire(f) \/ MCShrink(f) \/ MCExpand(f) \/ MCCheckpoint(f) \/ MCCrash(f)
+  \/ \E f \in R : MCLagExpire(f) \/ MCShrink(f) \/ MCExpand(f) \/ MCCheckpoint(f) \/ MCCrash(f) \/ MCFetchLost(f)
   \/ \E r \in R, reach \in BOOLEAN : MCRestart(r, reach) \/ MCApplyMeta(r, reach)
   \/ \E r \in R, reach \in BOOLEAN, lag \in SUBSET R : MCElect(r, reach, lag)
   \/ \E f \in R : MCStaleFetch(f)
